@@ -15,6 +15,9 @@ pub(crate) enum FilesystemFacade {
 
     #[cfg(test)]
     Mock(Arc<MockFilesystem>),
+
+    #[cfg(folo_verif)]
+    Verif(std::sync::Arc<dyn crate::verif::SimFilesystem>),
 }
 
 impl FilesystemFacade {
@@ -34,6 +37,8 @@ impl Filesystem for FilesystemFacade {
             Self::Target(filesystem) => filesystem.get_cpuinfo_contents(),
             #[cfg(test)]
             Self::Mock(mock) => mock.get_cpuinfo_contents(),
+            #[cfg(folo_verif)]
+            Self::Verif(sim) => sim.get_cpuinfo_contents(),
         }
     }
 
@@ -42,6 +47,8 @@ impl Filesystem for FilesystemFacade {
             Self::Target(filesystem) => filesystem.get_numa_node_cpulist_contents(node_index),
             #[cfg(test)]
             Self::Mock(mock) => mock.get_numa_node_cpulist_contents(node_index),
+            #[cfg(folo_verif)]
+            Self::Verif(sim) => sim.get_numa_node_cpulist_contents(node_index),
         }
     }
 
@@ -50,6 +57,8 @@ impl Filesystem for FilesystemFacade {
             Self::Target(filesystem) => filesystem.get_possible_cpus_contents(),
             #[cfg(test)]
             Self::Mock(mock) => mock.get_possible_cpus_contents(),
+            #[cfg(folo_verif)]
+            Self::Verif(sim) => sim.get_possible_cpus_contents(),
         }
     }
 
@@ -58,6 +67,8 @@ impl Filesystem for FilesystemFacade {
             Self::Target(filesystem) => filesystem.get_online_cpus_contents(),
             #[cfg(test)]
             Self::Mock(mock) => mock.get_online_cpus_contents(),
+            #[cfg(folo_verif)]
+            Self::Verif(sim) => sim.get_online_cpus_contents(),
         }
     }
 
@@ -66,6 +77,8 @@ impl Filesystem for FilesystemFacade {
             Self::Target(filesystem) => filesystem.get_cpu_online_contents(cpu_index),
             #[cfg(test)]
             Self::Mock(mock) => mock.get_cpu_online_contents(cpu_index),
+            #[cfg(folo_verif)]
+            Self::Verif(sim) => sim.get_cpu_online_contents(cpu_index),
         }
     }
 
@@ -74,6 +87,8 @@ impl Filesystem for FilesystemFacade {
             Self::Target(filesystem) => filesystem.get_numa_node_possible_contents(),
             #[cfg(test)]
             Self::Mock(mock) => mock.get_numa_node_possible_contents(),
+            #[cfg(folo_verif)]
+            Self::Verif(sim) => sim.get_numa_node_possible_contents(),
         }
     }
 
@@ -82,6 +97,8 @@ impl Filesystem for FilesystemFacade {
             Self::Target(filesystem) => filesystem.get_proc_self_status_contents(),
             #[cfg(test)]
             Self::Mock(mock) => mock.get_proc_self_status_contents(),
+            #[cfg(folo_verif)]
+            Self::Verif(sim) => sim.get_proc_self_status_contents(),
         }
     }
 
@@ -90,6 +107,8 @@ impl Filesystem for FilesystemFacade {
             Self::Target(filesystem) => filesystem.get_proc_self_cgroup(),
             #[cfg(test)]
             Self::Mock(mock) => mock.get_proc_self_cgroup(),
+            #[cfg(folo_verif)]
+            Self::Verif(sim) => sim.get_proc_self_cgroup(),
         }
     }
 
@@ -98,6 +117,8 @@ impl Filesystem for FilesystemFacade {
             Self::Target(filesystem) => filesystem.get_v1_cgroup_cpu_quota(cgroup_name),
             #[cfg(test)]
             Self::Mock(mock) => mock.get_v1_cgroup_cpu_quota(cgroup_name),
+            #[cfg(folo_verif)]
+            Self::Verif(sim) => sim.get_v1_cgroup_cpu_quota(cgroup_name),
         }
     }
 
@@ -106,6 +127,8 @@ impl Filesystem for FilesystemFacade {
             Self::Target(filesystem) => filesystem.get_v1_cgroup_cpu_period(cgroup_name),
             #[cfg(test)]
             Self::Mock(mock) => mock.get_v1_cgroup_cpu_period(cgroup_name),
+            #[cfg(folo_verif)]
+            Self::Verif(sim) => sim.get_v1_cgroup_cpu_period(cgroup_name),
         }
     }
 
@@ -114,6 +137,8 @@ impl Filesystem for FilesystemFacade {
             Self::Target(filesystem) => filesystem.get_v2_cgroup_cpu_quota_and_period(cgroup_name),
             #[cfg(test)]
             Self::Mock(mock) => mock.get_v2_cgroup_cpu_quota_and_period(cgroup_name),
+            #[cfg(folo_verif)]
+            Self::Verif(sim) => sim.get_v2_cgroup_cpu_quota_and_period(cgroup_name),
         }
     }
 }
@@ -125,6 +150,8 @@ impl Debug for FilesystemFacade {
             Self::Target(inner) => inner.fmt(f),
             #[cfg(test)]
             Self::Mock(inner) => inner.fmt(f),
+            #[cfg(folo_verif)]
+            Self::Verif(inner) => inner.fmt(f),
         }
     }
 }
